@@ -180,7 +180,6 @@ func c03Configs() []CfgLit {
 	}
 }
 
-
 func checkC03(c *vlib.Ctx) (string, string) {
 	ck := &Checker[c03Case]{C: c, Judge: c03Judge, Test: c03Test}
 	c.RegisterMatcher("bracketed-host-without-colon", func(raw []byte) bool {
